@@ -397,6 +397,7 @@ def set_partitions(n):
 def job_counts_proved(k):
     """decode_counts against its contract for ALL counts and ALL thresholds: k readings (k fixed), every partition of them into classes of equal
     decoded value (decode_output is replaced by its contract: it returns the class value), counts and discard_lower arbitrary integers.
+      requires counts >= 0, discard_lower >= 0 (natural numbers)
       ensures  discard_lower None or 0:  result = { v: sum of the counts of the readings decoding to v }
                otherwise:                result = the same map restricted to the values whose SUM is >= discard_lower"""
     import z3
@@ -448,7 +449,8 @@ def job_counts_proved(k):
                         goal.append(z3.Not(keep))
                 if any(v not in sums for v in p_.value):
                     goal.append(z3.BoolVal(False))
-                st, model, secs, backend = pyvc.solve(p_.hyps(), z3.And(*goal) if goal else z3.BoolVal(True), 10000)
+                pre = [c >= 0 for c in cs] + [d >= 0]          # requires: counts and the threshold are natural numbers
+                st, model, secs, backend = pyvc.solve(p_.hyps() + pre, z3.And(*goal) if goal else z3.BoolVal(True), 10000)
                 if st != PROVED:
                     cv = {str(c): model.eval(c, model_completion=True).as_long() for c in cs} if model is not None else None
                     dv = model.eval(d, model_completion=True).as_long() if (model is not None and mode == "symbolic") else None
